@@ -20,13 +20,18 @@ pub fn main(_args: &[String]) -> i32 {
         let r: String = if kind == "image_stream" || kind == "image_value" {
             crate::registry::c19::image_one(kind == "image_stream", text)
         } else {
-            match crate::registry::c19::view_one(kind, text) {
+            let (res, probe) = crate::registry::c19::view_one(kind, text);
+            let base = match res {
                 crate::registry::c19::VRes::Ok(true) => "ok1",
                 crate::registry::c19::VRes::Ok(false) => "ok0",
                 crate::registry::c19::VRes::Err => "err",
                 _ => "panic",
+            };
+            match probe {
+                Some(true) => format!("{}+raster_ok", base),
+                Some(false) => format!("{}+raster_panic", base),
+                None => base.to_string(),
             }
-            .to_string()
         };
         let mut out = stdout.lock();
         let _ = writeln!(out, "{}", r);
